@@ -593,7 +593,10 @@ ReserveInner(M, h, add, allocate) ==
                  want == Max2(dbl, sum)
                  vlen == off + len
              IN \* v.set_len(off+len); v.reserve(want - vlen)
-                IF want > IMAXW THEN [M |-> M, res |-> "panic"]
+                \* (with W = 6 the DOUBLED capacity of an in-contract request can pass IMAXW, which no real
+                \* machine reaches before the allocator fails: resource exhaustion is cut first)
+                IF sum <= IMAXW /\ vcap < want /\ VecGrow(vcap, want) > MaxBuf THEN [M |-> M, res |-> "oom"]
+                ELSE IF want > IMAXW THEN [M |-> M, res |-> "panic"]
                 ELSE IF vcap >= want THEN [M |-> Set(M, h, [m EXCEPT !.cap = vcap - off]), res |-> "true"]
                 ELSE IF VecGrow(vcap, want) > MaxBuf THEN [M |-> M, res |-> "oom"]
                 ELSE LET ncap == VecGrow(vcap, want)
